@@ -401,7 +401,7 @@ def cmd_run(prop, tier, seed):
                 continue
             # known-finding match needs the replayed detail for crashes too
             keep = list(range(r1['nops']))
-            if r1['nops'] > 1:
+            if r1['nops'] > 1 and not cls.startswith('hang'):   # every probe of a hang costs a full watchdog period
                 def test(sub, cls=cls, c=c, leg=leg):
                     rr = run_one(leg.binary, c['run_seed'], tier, leg.variant, prop, keep=sub)
                     return rr['cls'] == cls
